@@ -26,6 +26,8 @@ Proof.
   apply orb_false_iff in C. destruct C as [C _]. apply negb_false_iff, N.eqb_eq in C.
   destruct (c01_u32_at_ok 1 data 24) as [hh Ehh]; [lia|]. rewrite Ehh. cbn [bind].
   destruct (c01_u32_at_ok 1 data 28) as [ww Eww]; [lia|]. rewrite Eww. cbn [bind].
+  (* fix fB: the glyph size test and `charsize != height` are two more error returns *)
+  destruct (_ || _); [exact I|]. destruct (negb (cs =? hh)); [exact I|].
   unfold drop. replace (lenN data <? hs) with false by (symmetry; apply N.ltb_ge; lia).
   exact I.
 Qed.
@@ -34,9 +36,9 @@ Lemma c01_from_bytes_total data : safe (from_bytes data).
 Proof.
   unfold from_bytes. destruct (N.ltb_spec (lenN data) 4) as [H|H]; [exact I|].
   destruct data as [|a [|b [|c [|d rest]]]]; try (cbn in H; lia).
-  destruct (le16 [a; b] =? PSF1_MAGIC); [exact I|].
+  destruct (le16 [a; b] =? PSF1_MAGIC); [unfold load_psf1; destruct (_ || _); exact I|].
   destruct (le32 [a; b; c; d] =? PSF2_MAGIC); [apply c01_load_psf2_total|].
-  unfold load_plain_font. destruct (negb _); exact I.
+  unfold load_plain_font. destruct (_ || _); exact I.
 Qed.
 
 (* for any base64 decoder *)
